@@ -6,6 +6,7 @@ import DL.Gen.RuleTable
 import DL.Model.CFJson
 import DL.Model.CFRules
 import DL.Model.RegexJson
+import DL.Model.ScopeJson
 
 /-! `dlmodel`: one JSON request per line on stdin, one JSON answer per line on stdout. -/
 open Lean (Json)
@@ -178,6 +179,7 @@ def dispatch (j : Json) : Except String Json := do
   | "sortprio" => runSortPrio j
   | "cf" => runCf j
   | "rx" => DL.Rx.runRx j
+  | "scope" => DL.Scope.runScope j
   | m => throw s!"unknown model {m}"
 
 end Drv
